@@ -10,4 +10,9 @@ third guard); without it `addPart_binds_position` is false of the code. -/
 theorem addPart_position_guard : Facts.addPart_position_guard =
     "part.Proof.Index != int64(part.Index) || part.Proof.Total != int64(ps.total)" := by decide
 
+/-- `merkle.MaxAunts` and `types.BlockPartSizeBytes` as the model's `ValidateBasic` uses them
+(`honest_parts_validate` needs 100 ≤ MaxAunts and the part size limit). -/
+theorem maxAunts_value : Facts.merkle_MaxAunts = 100 := by decide
+theorem blockPartSize_value : Facts.blockPartSizeBytes = 65536 := by decide
+
 end Tmv.Expect.C10
